@@ -120,6 +120,28 @@ def run(ctx):
             if not bound:
                 res.find(key, fn.loc(m["sp"]), "%s does not bind the payload of Expression::%s in an explicit arm: it cannot look it up / report it" % (label, leaf), "`%x + theta[0]`")
 
+    # ---- R1a' the listing defers a child by pushing it: that push happens for every node of the kind, whatever the other
+    # child looks like (a literal on the left says nothing about the right operand)
+    ms_ = k2.match_on(db, nx, EXPRESSION)
+    if ms_:
+        m_ = max(ms_, key=lambda x: len(x["arms"]))
+        for a_ in m_["arms"]:
+            vs_, _c = k2.arm_variants(a_, EXPRESSION)
+            for v in sorted(vs_ & set(children)):
+                pushes = [(bb, t) for bb, t, c in nx.calls() if c and c.get("name") in ("push", "push_back", "extend") and in_span(t["sp"], a_["body_sp"])]
+                if not pushes:
+                    continue
+                conds = []
+                for bb, t in pushes:
+                    for sb, tgt in nx.control_deps(bb, transitive=False):
+                        tt = nx.blocks[sb]["t"]
+                        if tt["k"] != "switch" or not in_span(tt["sp"], a_["body_sp"]):
+                            continue  # the selection of the arm itself
+                        conds.append(str(fn_expr_operand(nx, tt["d"])[:2])[:70])
+                key = "K7|listing-children-unconditional|%s" % v
+                res.site(key, True, {"variant": v, "pushes": len(pushes), "conditions": conds, "verdict": "ok" if not conds else "VIOLATION"})
+                if conds:
+                    res.find(key, nx.loc(a_["sp"]), "MemoryReferences::next defers a child of Expression::%s only under a condition (%s): references in that child are not listed for some nodes" % (v, conds), "`2 * theta[1]` lists no memory reference")
     # ---- R1b helper traversals: every self-recursive local function that matches on Expression and is called from one
     # of the three traversals (e.g. a "does it contain variables" pre-check) must cover the same child-holding variants
     nhelp = 0
@@ -237,6 +259,47 @@ def run(ctx):
             if not ok:
                 res.find(key, sv.loc(s_["sp"]), "substitute_variables returns %s for a %s node on some path: the operator of the node is dropped or folded" % ((e[2] if e[0] == "agg" else str(e[:2])[:60]), v_), "`+%x` (Prefix Plus) with x := 2 substitutes to the literal -2")
     res.count("substitute_composite_returns", nret, floor=3)
+    # ... and leaves a leaf that is not a variable exactly as it is (a memory reference is never a substitution target:
+    # `theta[0]` and `%theta` are different things)
+    leaves = {vidx[i] for i in vidx} - composite - {"Variable"}
+    nleaf = 0
+    for b_ in range(len(sv.blocks)):
+        # returned values: assignments to _0 and calls whose destination is _0
+        rets = [(s_["sp"], _rv(sv, s_["rv"])) for s_ in sv.blocks[b_]["s"] if s_["k"] == "assign" and s_["p"]["l"] == 0 and not s_["p"]["pr"]]
+        t_ = sv.blocks[b_]["t"]
+        if t_["k"] == "call" and t_["dest"]["l"] == 0 and not t_["dest"]["pr"]:
+            c_ = t_.get("f", {}).get("k", {}).get("fn")
+            rets.append((t_["sp"], ("call", callee_path(c_) if c_ else "?", [fn_expr_operand(sv, a) for a in t_["args"]], b_)))
+        if not rets:
+            continue
+        sel = set()
+        for sb, tgt in sv.control_deps(b_):
+            tt = sv.blocks[sb]["t"]
+            if tt["k"] == "switch":
+                de = fn_expr_operand(sv, tt["d"])
+                if de[0] == "discr" and de[1][0] == "param" and de[1][1] == 1:
+                    listed = {vidx.get(int(v_)) for v_, x in tt["ts"]}
+                    for v_, x in tt["ts"]:
+                        if x == tgt:
+                            sel.add(vidx.get(int(v_)))
+                    if tt["else"] == tgt:
+                        sel |= set(vidx.values()) - listed
+        if not sel or not (sel <= leaves):
+            continue
+        for sp_, e in rets:
+            nleaf += 1
+            root_ = e
+            ok = False
+            if e[0] == "call" and e[1].rsplit("::", 1)[-1] == "clone" and e[2]:
+                root_ = e[2][0]
+                while root_[0] in ("field", "as"):
+                    root_ = root_[1]
+                ok = root_[0] == "param" and root_[1] == 1
+            key = "K5|substitute-leaves-leaf-unchanged|%s" % "+".join(sorted(sel))
+            res.site(key, True, {"variants": sorted(sel), "returns": str(e[:2])[:70], "verdict": "ok" if ok else "VIOLATION"})
+            if not ok:
+                res.find(key, sv.loc(sp_), "substitute_variables does not return a %s node unchanged (returns %s)" % ("/".join(sorted(sel)), str(e[:2])[:80]), "`%theta + theta` with theta := 2 and memory theta = [5]: evaluates to 7, substituted first it evaluates to 4")
+    res.count("substitute_leaf_returns", nleaf, floor=1)
     # R2c every value evaluate computes from evaluated children goes through calculate_infix / calculate_function / negation
     WRAP = ("calculate_infix", "calculate_function", "neg")
     nok_ = 0
